@@ -491,6 +491,105 @@ def kernel_case(ctx, name, shape, view, options):
     A.check(expected)
 
 
+@scenario
+def loop_region_all_sizes(ctx, generator):
+    """(b) for ALL sizes: the loop bounds of the lowered IR, as linear integer expressions in the symbolic sizes, equal the
+    documented region: [g, n-g) per axis with g = reach of the stencil (front-end assignments), or the documented
+    iteration slice for the boundary operators.  One QF_LIA query per loop bound."""
+    import z3
+
+    from checks.c15 import _z3_check, instantiate_all_generators
+    from checks.common import Claim
+    from symsopht.iranalysis import IRInfo
+
+    if not _GEN:
+        _GEN.update(instantiate_all_generators())
+    seen = set()
+    for h in _GEN[generator]:
+        key = (str(h.assignments), str(getattr(h.config, "iteration_slice", None)))
+        if key in seen:
+            continue
+        seen.add(key)
+        ir = IRInfo(h)
+        g = ir.frontend_reach()
+        isl = None
+        try:
+            isl = h.config.iteration_slice
+        except Exception:
+            isl = None
+        for d, (ctr, lo, hi, step) in enumerate(ir.loops):
+            n = ir.size(d)
+            if n is None:
+                n = z3.Int(f"_unused_size_{d}")  # bounds of this axis do not mention the size (e.g. slice [:width])
+            if isl is not None and d < len(isl) and isinstance(isl[d], slice) and (isl[d].start is not None or isl[d].stop is not None):
+                sl = isl[d]
+                exp_lo = z3.IntVal(0) if sl.start is None else (n + sl.start if sl.start < 0 else z3.IntVal(sl.start))
+                exp_hi = n if sl.stop is None else (n + sl.stop if sl.stop < 0 else z3.IntVal(sl.stop))
+                doc = f"slice {sl.start}:{sl.stop}"
+            elif isl is not None:
+                exp_lo, exp_hi, doc = z3.IntVal(0), n, "full axis of a sliced kernel"
+            else:
+                exp_lo, exp_hi, doc = z3.IntVal(g), n - g, f"interior with ghost {g}"
+            r, model, dt = _z3_check([n >= 0, z3.Or(lo != exp_lo, hi != exp_hi)], "loop_region")
+            ctx.claims.append(Claim(f"loop_bounds_equal_documented_region:{h.name}:axis{d}:{doc}", r, model, time_=dt))
+            if r != "unsat":
+                ctx.nfail += 1
+            if step != 1:
+                ctx.claims.append(Claim(f"unit_step:{h.name}:axis{d}", "sat", {}))
+                ctx.nfail += 1
+
+
+@scenario
+def interpreter_vs_compiled(ctx, name, options):
+    """translator validation (guards the IR interpreter and the shim, decides nothing about SophT): random numeric inputs
+    through the genuinely compiled kernel and through the interpreter must agree"""
+    c = CASES[name]
+    shape = tuple(m + 1 for m in c["min_shape"])
+    res = []
+    for mode in ("num", "interp"):
+        from checks.common import Ctx
+
+        rng = np.random.default_rng(7)
+        if mode == "num":
+            c2 = Ctx("num", model={}, real_t=ctx.real_t)
+            c2._num = lambda n, d, rng=rng, memo={}: memo.setdefault(n, float(rng.uniform(0.1, 1.0)))
+            A = Arrays(c2, "contiguous")
+            c["fn"](c2, A, _gen(name), shape, c["nd"], **options)
+            res.append({k: np.asarray(v["arr"], dtype=float).copy() for k, v in A.items.items() if v["role"] != "in"})
+        else:
+            from symsopht import sym as S
+            from symsopht.symarray import constant, to_float
+
+            c2 = Ctx("sym", real_t=ctx.real_t)
+            memo = {}
+
+            def arr(n, sh, default=0.0, rng=rng, memo=memo):
+                out = np.empty(sh)
+                for idx in np.ndindex(*sh):
+                    out[idx] = memo.setdefault(n + "[" + ",".join(map(str, idx)) + "]", float(rng.uniform(0.1, 1.0)))
+                return constant(out)
+
+            c2.array = arr
+            c2.scalar = lambda n, memo=memo, rng=rng, **k: S.lift(memo.setdefault(n, float(rng.uniform(0.1, 1.0))))
+            c2.assume = lambda cond: None
+            A = Arrays(c2, "contiguous")
+            c["fn"](c2, A, _gen(name), shape, c["nd"], **options)
+            res.append({k: to_float(v["arr"]) for k, v in A.items.items() if v["role"] != "in"})
+    from checks.common import Claim
+
+    worst = 0.0
+    for k in res[0]:
+        worst = max(worst, float(np.max(np.abs(res[0][k] - res[1][k]))) if res[0][k].size else 0.0)
+    ok = worst <= (1e-10 if ctx.real_t == np.float64 else 1e-4)
+    ctx.claims.append(Claim(f"interpreter_agrees_with_compiled_kernel(max_abs_diff={worst:.2e})", "unsat" if ok else "sat", {}))
+    if not ok:
+        ctx.nfail += 1
+        raise RuntimeError(f"translator validation failed for {name} {options}: {worst}")
+
+
+_GEN: dict = {}
+
+
 def shapes_for(min_shape, quick):
     nd = len(min_shape)
     deltas = (0, 1) if quick else (0, 1, 2)
@@ -537,9 +636,19 @@ def main():
                             continue
                         chk.add(kernel_case, real_t=rt, name=name, shape=list(sh), view=view, options=opt)
                         n += 1
+    from checks.c15 import instantiate_all_generators
+
+    _GEN.update(instantiate_all_generators())
+    for g in sorted(_GEN):
+        chk.add(loop_region_all_sizes, generator=g)
+    tv = sorted(CASES) if not chk.quick else ["gen_diffusion_flux_pyst_kernel_2d", "gen_advection_flux_conservative_eno3_pyst_kernel_3d", "gen_elementwise_saxpby_pyst_kernel_3d", "gen_curl_pyst_kernel_3d"]
+    for name in tv:
+        for opt in CASES[name]["options"][: (1 if chk.quick else None)]:
+            chk.add(interpreter_vs_compiled, name=name, options=opt)
     chk.files = sorted({f"sopht/numeric/eulerian_grid_ops/{d}/{f}" for d in ("stencil_ops_2d", "stencil_ops_3d") for f in os.listdir(f"/repo/sopht/numeric/eulerian_grid_ops/{d}") if f.endswith(".py")})
     chk.bounds = [f"{len(CASES)} generators x option combinations; shapes from the minimal admissible size to +{1 if chk.quick else 2} per axis (non-cubic included)",
-                  f"views: {views}", f"precisions: {precisions}", "all array contents, prior output contents and scalar parameters are solver variables"]
+                  f"views: {views}", f"precisions: {precisions}", "all array contents, prior output contents and scalar parameters are solver variables",
+                  "(b) loop region of every kernel of every generator for ALL sizes (sizes are integer solver variables)", "translator validation of the IR interpreter against the compiled kernels (guard, not deciding)"]
     chk.outside = ["shapes beyond the enumerated ones (values/frame part)", "strides inside the generated C beyond the exercised views", "rounding"]
     chk.assumptions = ["exact real arithmetic", "Brinkmann kernels: penalty >= 0 and indicator >= 0 (denominator 1 + lambda*chi > 0)",
                        "generators covered by other checks: " + "; ".join(f"{k} -> {v}" for k, v in handled_elsewhere.items())]
